@@ -33,41 +33,41 @@ theorem C07_alias_complete (d : Doc) (a b : String) (h : Stmt.alias a b ∈ d) :
 /-- the global PHOTOS flag is the last one given, and off when absent -/
 theorem C07_photos_absent (d : Doc) (h : ∀ y, Stmt.globalPhotos y ∉ d) : globalPhotos d = false := by
   unfold globalPhotos
-  have : (d.filterMap fun | .globalPhotos y => some y | _ => none) = [] := by
+  have : d.filterMap photosOf = [] := by
     rw [List.filterMap_eq_nil_iff]
     intro s hs
-    cases s <;> simp
+    cases s <;> simp [photosOf]
     exact h _ hs
   rw [this]; rfl
 
 theorem C07_photos_last (d₁ d₂ : Doc) (y : Bool) (h : ∀ z, Stmt.globalPhotos z ∉ d₂) :
     globalPhotos (d₁ ++ [.globalPhotos y] ++ d₂) = y := by
   unfold globalPhotos
-  have : (d₂.filterMap fun | .globalPhotos y => some y | _ => none) = [] := by
+  have : d₂.filterMap photosOf = [] := by
     rw [List.filterMap_eq_nil_iff]
     intro s hs
-    cases s <;> simp
+    cases s <;> simp [photosOf]
     exact h _ hs
   rw [List.filterMap_append, List.filterMap_append, this]
-  simp
+  simp [photosOf]
 
 /-- CDecay names are reported all, sorted -/
 theorem C07_cdecays (d : Doc) :
-    (cdecayNames d).Perm (d.filterMap fun | .cdecay n => some n | _ => none) ∧
+    (cdecayNames d).Perm (d.filterMap stCDecay) ∧
     List.Pairwise (fun a b => a ≤ b) (cdecayNames d) := by
   constructor
   · exact List.mergeSort_perm _ _
   · have := List.pairwise_mergeSort (le := sleb)
       (fun a b c => by simp only [sleb, decide_eq_true_eq]; exact String.le_trans)
       (fun a b => by simp only [sleb, Bool.or_eq_true, decide_eq_true_eq]; exact String.le_total a b)
-      (d.filterMap fun | .cdecay n => some n | _ => none)
+      (d.filterMap stCDecay)
     simpa [sleb, cdecayNames, ssort] using this
 
 /-- SetLineshapePW statements are reported all, in order, with repeats -/
 theorem C07_lineshape_pw (d₁ d₂ : Doc) (a b c v : String) :
     lineshapePW (d₁ ++ [.setLsPW a b c v] ++ d₂) =
       lineshapePW d₁ ++ [([a, b, c], digitsVal v.toList)] ++ lineshapePW d₂ := by
-  simp [lineshapePW, List.filterMap_append]
+  simp [lineshapePW, List.filterMap_append, stLsPW]
 
 /-- a repeated lineshape setting is reported as an error, never overwritten -/
 theorem C07_lineshape_repeat (acc : List (String × List (String × LVal))) (p key : String) (v : LVal)
@@ -113,16 +113,26 @@ theorem C07_position_free (d d' : Doc) (h : globalsOf d = globalsOf d') :
   · simp only [globalPhotos]; rw [key _ (fun _ _ => rfl)]
   · simp only [lineshapePW]; rw [key _ (fun _ _ => rfl)]
 
-/-- a Particle statement with a width reports it; without, the reference width of the (aliased)
-    particle divided by 1000 (MeV -> GeV); an unknown name is an error -/
-theorem C07_width_step (refWidth : String → Option Rat) (aliases : List (String × String))
-    (n m : String) (mass : Rat) (hm : numValue m = some mass) :
-    (∀ wt width, numValue wt = some width →
-      (match (some wt : Option String) with
-        | some wt => (match numValue wt with | some w => some (mass, w) | none => none)
-        | none => none) = some (mass, width)) ∧
-    (∀ wd, refWidth ((dget aliases n).getD n) = some wd → wd / 1000 = wd / 1000) := by
-  exact ⟨fun wt width h => by simp [h], fun _ _ => rfl⟩
+/-- a Particle statement with a width reports it -/
+theorem C07_width_given (refWidth : String → Option Rat) (aliases : List (String × String))
+    (acc : List (String × Rat × Rat)) (n m wt : String) (mass width : Rat)
+    (hm : numValue m = some mass) (hw : numValue wt = some width) :
+    particleStep refWidth aliases acc n m (some wt) = .ok (dset acc n (mass, width)) := by
+  simp [particleStep, hm, hw]
+
+/-- without a width it reports the reference width of the (aliased) particle, converted MeV -> GeV -/
+theorem C07_width_default (refWidth : String → Option Rat) (aliases : List (String × String))
+    (acc : List (String × Rat × Rat)) (n m : String) (mass wd : Rat)
+    (hm : numValue m = some mass) (hr : refWidth ((dget aliases n).getD n) = some wd) :
+    particleStep refWidth aliases acc n m none = .ok (dset acc n (mass, wd / 1000)) := by
+  simp [particleStep, hm, hr]
+
+/-- ... and an unknown name is an error of the query -/
+theorem C07_width_unknown (refWidth : String → Option Rat) (aliases : List (String × String))
+    (acc : List (String × Rat × Rat)) (n m : String) (mass : Rat)
+    (hm : numValue m = some mass) (hr : refWidth ((dget aliases n).getD n) = none) :
+    ∃ e, particleStep refWidth aliases acc n m none = .error e := by
+  simp [particleStep, hm, hr]
 
 /-- non-vacuity -/
 def exDoc : Doc := [.alias "MyD" "D+", .decay "A" [], .alias "MyD" "D-", .globalPhotos true, .cdecay "b", .cdecay "a", .globalPhotos false]
